@@ -31,13 +31,15 @@ Definition OFF_PEND := 0. Definition OFF_FLAGS := 1. Definition OFF_STATE := 2.
 Definition DVX_SUSPEND := 110.   (* dispatch_suspend(ds) returned *)
 Definition DVX_RESUME := 111.    (* dispatch_resume(ds) about to be called *)
 Definition DVX_CANCEL := 112.    (* dispatch_source_cancel(ds) about to be called *)
-Definition DVX_LOCK := 120.      (* this thread's write to dq_state made it the drain owner *)
-Definition DVX_UNLOCK := 121.    (* this thread's write cleared its ownership; ea = 1 iff the new word is ENQUEUED or DIRTY *)
+(* derived from this thread's own successful writes of dq_state (ea = word before, eb = word after): *)
+Definition DVX_LOCK := 120.      (* the write made this thread the drain owner *)
+Definition DVX_UNLOCK := 121.    (* the write cleared its ownership; "live" iff the new word is ENQUEUED or DIRTY *)
 Definition DVX_RELOOP := 122.    (* the owner cleared DIRTY with the `xor ... acquire` of a refused unlock *)
+Definition DVX_HIWORD := 124.    (* the write changed the suspend count (dispatch_suspend / dispatch_resume / activation) *)
 
 Inductive dkind := KindAdd | KindOr | KindReplace.
 Definition is_replace (k : dkind) : bool := match k with KindReplace => true | _ => false end.
-Record cfg := mkCfg { ck : dkind }.
+Record cfg := mkCfg { ck : dkind; cself : Z }.      (* cself: the thread's lock value (tid & DLOCK_OWNER_MASK) *)
 
 Definition mo_code (o : morder) : Z :=
   match o with Relaxed => 0 | Consume => 1 | Acquire => 2 | Release => 3 | AcqRel => 4 | SeqCst => 5 end.
@@ -60,6 +62,27 @@ Definition qos_values : list Z := [0; 1; 2; 3; 4; 5; 6; 7; 8; 9; 10; 11; 12; 13;
 Definition wake_commits (old new : Z) : bool :=
   existsb (fun q => match wake_body q old with Commit n _ => n =? new | _ => false end) qos_values.
 Definition word_dirty (w : Z) : bool := nz (f_dq_state_is_dirty w).
+
+(* the drain side's writes of dq_state, checked with the generated bodies and the parameters Model/SrcLane.v uses:
+   the source is a serial lane drained by a plain worker: owned = IN_BARRIER + WIDTH_INTERVAL + ENQUEUED *)
+Definition OWNED : Z := 18014398509481984 + 2199023255552 + DISPATCH_QUEUE_ENQUEUED.
+Definition lock_commits (self old new : Z) : bool :=
+  existsb (fun fl => match f_dispatch_queue_drain_try_lock 0 0 1 self fl old 0 with
+                     | Commit n o => (n =? new) && (o =? OWNED) | _ => false end) qos_values.
+Definition unlock_commits (old new : Z) : bool :=
+  match f_dispatch_queue_drain_try_unlock 0 OWNED 1 old with Commit n _ => n =? new | _ => false end ||
+  match invoke_finish_loop 0 0 1 OWNED old DISPATCH_QUEUE_ENQUEUED with Commit n _ => n =? new | _ => false end.
+Definition reloop_commits (old new : Z) : bool := word_dirty old && (new =? Z.lxor old DISPATCH_QUEUE_DIRTY).
+Definition hiword_commits (old new : Z) : bool :=
+  match suspend_loop 0 old with Commit n _ => n =? new | _ => false end ||
+  match resume_loop 0 0 old 1 0 0 with Commit n _ => n =? new | _ => false end ||
+  match resume_activate_loop 0 1 old with Commit n _ => n =? new | _ => false end.
+Definition word_live (w : Z) : bool :=
+  nz (Z.land w (Z.lor (Z.lor DISPATCH_QUEUE_ENQUEUED DISPATCH_QUEUE_ENQUEUED_ON_MGR) DISPATCH_QUEUE_DIRTY)).
+Definition ev_lock (c : cfg) (e : event) : bool := ev_kind e DVX_LOCK && lock_commits (cself c) (ea e) (eb e).
+Definition ev_unlock (e : event) : bool := ev_kind e DVX_UNLOCK && unlock_commits (ea e) (eb e).
+Definition ev_reloop (e : event) : bool := ev_kind e DVX_RELOOP && reloop_commits (ea e) (eb e).
+Definition ulive (e : event) : bool := word_live (eb e).
 
 Inductive pc :=
 | PIdle
@@ -94,7 +117,8 @@ Definition tstep (c : cfg) (p : pc) (e : event) : option pc :=
   match p with
   | PIdle =>
       if ev_kind e DVU_CALL then Some (PMFlags (u64 (ea e)))
-      else if ev_kind e DVX_LOCK then Some PD0
+      else if ev_lock c e then Some PD0
+      else if ev_kind e DVX_HIWORD && hiword_commits (ea e) (eb e) then Some PIdle
       else if ev_is e DV_LOAD MO_RELAXED OFF_PEND then Some PIdle      (* a wakeup's test by a thread that is not merging *)
       else if ev_kind e DVX_SUSPEND || ev_kind e DVX_RESUME || ev_kind e DVX_CANCEL then Some PIdle
       else None
@@ -124,26 +148,27 @@ Definition tstep (c : cfg) (p : pc) (e : event) : option pc :=
       else None
   | PD0 =>
       if ev_is e DV_LOAD MO_RELAXED OFF_PEND then Some (pend_seen (ea e))
-      else if ev_kind e DVX_UNLOCK then Some PIdle
+      else if ev_reloop e then Some PD0                  (* a cancelled source whose unlock was refused *)
+      else if ev_unlock e then Some PIdle
       else None
   | PDSaw v =>
       if ev_is e DV_XCHG MO_RELAXED OFF_PEND && (eb e =? 0) then Some (latch_next (ck c) (ea e))
       else if ev_is e DV_LOAD MO_RELAXED OFF_PEND then Some (pend_seen (ea e))
-      else if ev_kind e DVX_UNLOCK && (ea e =? 1) then Some PIdle
+      else if ev_unlock e && ulive e then Some PIdle
       else None
   | PDNone =>
       if ev_is e DV_LOAD MO_RELAXED OFF_PEND then Some (pend_seen (ea e))
-      else if ev_kind e DVX_RELOOP then Some PD0
-      else if ev_kind e DVX_UNLOCK then Some PIdle
+      else if ev_reloop e then Some PD0
+      else if ev_unlock e then Some PIdle
       else None
   | PCall prev => if ev_kind e DVU_CALLOUT_BEGIN && (ea e =? prev) then Some PInCall else None
   | PInCall => if ev_kind e DVU_CALLOUT_END then Some PPost else None
   | PPost =>
       if ev_is e DV_LOAD MO_RELAXED OFF_PEND then Some (if ea e =? 0 then PDNone else PDReq)
-      else if ev_kind e DVX_RELOOP then Some PD0
-      else if ev_kind e DVX_UNLOCK then Some PIdle
+      else if ev_reloop e then Some PD0
+      else if ev_unlock e then Some PIdle
       else None
-  | PDReq => if ev_kind e DVX_UNLOCK && (ea e =? 1) then Some PIdle else None
+  | PDReq => if ev_unlock e && ulive e then Some PIdle else None
   end.
 
 (* atomic sites of the modelled functions (kind, field, order) in program order: must equal what src2v reads *)
@@ -190,17 +215,17 @@ Definition gstep (c : cfg) (s : gst) (t : Z) (e : event) : option gst :=
     let load_pend := if ea e =? pend s then same else None in
     (* giving the drain lock back: a = 0 leaves the source neither enqueued nor dirty *)
     let unlock (allowed0 : bool) :=
-      if ea e =? 0
-      then (if allowed0 && negb (rq s)
+      if ulive e
+      then base (pend s) (cancelled s) (susp s) true None (latched s) (running s) (merged s) (dropped s) (delivered s)
+      else (if allowed0 && negb (rq s)
             then base (pend s) (cancelled s) (susp s) false None (latched s) (running s) (merged s) (dropped s) (delivered s)
-            else None)
-      else base (pend s) (cancelled s) (susp s) true None (latched s) (running s) (merged s) (dropped s) (delivered s) in
+            else None) in
     let reloop := base (pend s) (cancelled s) (susp s) false (owner s) (latched s) (running s) (merged s) (dropped s)
                        (delivered s) in
     match pcs s t with
     | PIdle =>
         if ev_kind e DVU_CALL then same
-        else if ev_kind e DVX_LOCK then
+        else if ev_lock c e then
           (* drain_try_lock commits only on a word without owner and without suspend count, and clears DIRTY *)
           match owner s with
           | None => if susp s =? 0
@@ -209,6 +234,7 @@ Definition gstep (c : cfg) (s : gst) (t : Z) (e : event) : option gst :=
                     else None
           | Some _ => None
           end
+        else if ev_kind e DVX_HIWORD && hiword_commits (ea e) (eb e) then same
         else if ev_is e DV_LOAD MO_RELAXED OFF_PEND then load_pend
         else if ev_kind e DVX_SUSPEND then
           base (pend s) (cancelled s) (susp s + 1) (rq s) (owner s) (latched s) (running s) (merged s) (dropped s) (delivered s)
@@ -243,6 +269,7 @@ Definition gstep (c : cfg) (s : gst) (t : Z) (e : event) : option gst :=
     | PMRet => same
     | PD0 =>
         if ev_is e DV_LOAD MO_RELAXED OFF_PEND then load_pend
+        else if ev_reloop e then reloop
         else unlock (cancelled s)      (* invoke2 skips the data branch only for a cancelled source (793) *)
     | PDSaw v =>
         if ev_is e DV_XCHG MO_RELAXED OFF_PEND && (eb e =? 0) then
@@ -255,7 +282,7 @@ Definition gstep (c : cfg) (s : gst) (t : Z) (e : event) : option gst :=
         else unlock false
     | PDNone =>
         if ev_is e DV_LOAD MO_RELAXED OFF_PEND then load_pend
-        else if ev_kind e DVX_RELOOP then reloop
+        else if ev_reloop e then reloop
         else unlock true
     | PCall prev =>
         base (pend s) (cancelled s) (susp s) (rq s) (owner s) 0 (running s + 1) (merged s) (dropped s) (prev :: delivered s)
@@ -263,7 +290,7 @@ Definition gstep (c : cfg) (s : gst) (t : Z) (e : event) : option gst :=
         base (pend s) (cancelled s) (susp s) (rq s) (owner s) (latched s) (running s - 1) (merged s) (dropped s) (delivered s)
     | PPost =>
         if ev_is e DV_LOAD MO_RELAXED OFF_PEND then load_pend
-        else if ev_kind e DVX_RELOOP then reloop
+        else if ev_reloop e then reloop
         else unlock true
     | PDReq => unlock false
     end
@@ -286,10 +313,10 @@ Fixpoint zsum (l : list Z) : Z := match l with [] => 0 | x :: r => x + zsum r en
 Fixpoint zlor (l : list Z) : Z := match l with [] => 0 | x :: r => Z.lor x (zlor r) end.
 Definition quiescent (s : gst) : Prop := forall t, pcs s t = PIdle.
 
-(* for the correspondence driver: sv = kind; result (index of the first rejected event or -1,
+(* for the correspondence driver: sv = kind + 4 * self; result (index of the first rejected event or -1,
    1 if the thread ended outside any call and outside the drain lock) *)
 Definition cfg_of (sv : Z) : cfg :=
-  mkCfg (if sv =? 0 then KindAdd else if sv =? 1 then KindOr else KindReplace).
+  mkCfg (if sv mod 4 =? 0 then KindAdd else if sv mod 4 =? 1 then KindOr else KindReplace) (sv / 4).
 Definition pc_idle (p : pc) : Z := match p with PIdle => 1 | _ => 0 end.
 Definition conform (sv : Z) (tr : list event) : Z * Z :=
   let '(p, i) := run_trace (tstep (cfg_of sv)) PIdle tr 0 in (i, pc_idle p).
